@@ -58,8 +58,14 @@ def main(argv):
         }
         res["prods"] = dict(st.prods)
         res["bigrams"] = sorted("%s>%s" % b for b in st.bigrams)
-    except BaseException as e:  # a crash of the harness is inconclusive, never a verdict
+    except BaseException as e:  # a crash of the harness is inconclusive, never a verdict ...
         res["crashed"] = traceback.format_exc()[-4000:]
+        try:
+            # ... but what the monitors had witnessed before it is kept: a violation seen is a violation
+            partial = ctx.result()
+            res.update({k: v for k, v in partial.items() if k not in res})
+        except Exception:
+            pass
     res["wall_s"] = round(time.time() - t0, 3)
     with open(out, "w") as f:
         json.dump(res, f)
